@@ -129,6 +129,7 @@ class Mangler:
         self.board = 1
         self.fired = False
         self.wire: List[Dict[str, str]] = []      # what went on the wire for each decision
+        self.first_card: Optional[bytes] = None   # the first card message of the current board
 
     def __call__(self, data: bytes) -> bytes:
         m = CALL_RE.match(data)
@@ -139,6 +140,8 @@ class Mangler:
             self.ncalls += 1
         if k:
             self.ncards += 1
+            if self.first_card is None:
+                self.first_card = bytes(data)
         f = self.fault
         if f and not self.fired and f['board'] == self.board and f['kind'] == 'bad-ready':
             if data.lower().endswith(f['line']):
@@ -182,12 +185,16 @@ class Mangler:
             return seat + b' redoubles\r\n' if self.fault.get('first', True) else seat + b' bids 1C\r\n'
         if kind == 'not-held':
             return seat + b' plays ' + self.fault['card'] + b'\r\n'
+        if kind == 'replay':
+            # the first card this connection sent on the board, once more
+            return self.first_card or (seat + b' plays ' + self.fault['card'] + b'\r\n')
         if kind == 'wrong-name':
             other = b'East' if seat != b'East' else b'West'
             return other + (b' passes\r\n' if auction else b' plays 2C\r\n')
         return b'\r\n'
 
     def new_board(self) -> None:
+        self.first_card = None
         self.board += 1
         self.ncalls = 0
         self.ncards = 0
